@@ -1,4 +1,6 @@
 import Litep2pVerif.Proofs.Manager.Caps
+import Litep2pVerif.Proofs.Manager.Ids
+import Litep2pVerif.Proofs.Conn.Permits
 import Litep2pVerif.Proofs.Node.Wiring
 /-!
 # C06 — Connection caps: at most two per peer, configured limits never exceeded
@@ -172,7 +174,63 @@ example :
     (onEstablished g.m 2 ⟨true, [], 2⟩ true).2.calls = [.accept 2] := by
   decide
 
+/-- **Connection ids are unique.** The manager's own dials (`dial`, `dial_address`) and the ids the transports take
+for inbound connections (`In.alloc` = `TransportHandle::next_connection_id()` of the handle `transport_handle(..)`
+hands out) come from ONE counter, `Mgr.nextConn`. In every state reachable while the transport keeps its contract
+(an inbound connection carries an id it took from the counter, a dialed one the id of its dial):
+the ids of all live connections — inbound and outbound — are pairwise distinct; each is below the counter, is not an
+id still held for a waiting inbound socket, and is shared with no dial in flight (an obligation with the id of a
+live connection is that connection's own pending `accept`); the ids of the dials in flight are pairwise distinct
+too. Hence the id sets of `ConnectionLimits` (`counted_iff_open`) count connections, and `on_connection_closed(c)`
+— which removes `c` from BOTH sets — releases the slot of the one connection that closed and of no other. -/
+theorem connection_ids_unique {g : G} (h : Reach g) :
+    (∀ l ∈ g.live, ∀ l' ∈ g.live, l.conn = l'.conn → l = l') ∧
+    (∀ l ∈ g.live, l.conn < g.m.nextConn ∧ l.conn ∉ g.fresh ∧
+      ∀ o ∈ g.owed, o.conn = l.conn → o.phase = .accepting) ∧
+    (g.owed.map (·.conn)).Nodup ∧ (∀ o ∈ g.owed, o.conn < g.m.nextConn) ∧
+    (∀ c ∈ g.fresh, c < g.m.nextConn ∧ c ∉ g.owed.map (·.conn)) := by
+  have hi := invIds_reach h
+  have h5 := inv05_reach h
+  exact ⟨hi.uniq, fun l hl => ⟨hi.bLive l hl, hi.liveFresh l hl, hi.liveOwed l hl⟩, h5.nodup, h5.bOwed,
+    fun c hc => ⟨h5.bFresh c hc, h5.freshOwed c hc⟩⟩
+
+/-- Non-vacuity: a dial (id 0), an inbound connection (id 1, taken by the transport), a second dial (id 2) and a
+second inbound connection (id 3), substreams or not in between — the history keeps the contract, four connections
+are live under four different ids, and `alloc` / `dial_address` hand out the same counter. -/
+example :
+    let is : List In :=
+      [.dialAddress [.ip4 1, .tcp 1, .p2p 1], .alloc, .evEstablished 2 ⟨true, [.ip4 2, .tcp 2], 1⟩ true,
+       .dialAddress [.ip4 3, .tcp 3, .p2p 3], .alloc, .evEstablished 4 ⟨true, [.ip4 4, .tcp 4], 3⟩ true,
+       .evEstablished 1 ⟨false, [.ip4 1, .tcp 1, .p2p 1], 0⟩ true,
+       .evEstablished 3 ⟨false, [.ip4 3, .tcp 3, .p2p 3], 2⟩ true]
+    let g := runG (G.init ⟨some 2, some 3⟩) is
+    g.live.map (·.conn) = [2, 0, 3, 1] ∧ g.m.limits.incoming = [3, 1] ∧ g.m.limits.outgoing = [2, 0] ∧
+    g.m.nextConn = 4 ∧ (step g.m .alloc).2.res = .conn 4 ∧
+    (step g.m (.dialAddress [.ip4 5, .tcp 5, .p2p 5])).2.calls = [.dial 4 [.ip4 5, .tcp 5, .p2p 5]] ∧
+    (step g.m (.dialAddress [.ip4 5, .tcp 5, .p2p 5])).1.nextConn = 5 := by
+  decide
+
+example : Reach (runG (G.init ⟨some 2, some 2⟩)
+      [.dialAddress [.ip4 1, .tcp 1, .p2p 1], .alloc, .evEstablished 2 ⟨true, [.ip4 2, .tcp 2], 1⟩ true,
+       .evEstablished 1 ⟨false, [.ip4 1, .tcp 1, .p2p 1], 0⟩ true]) :=
+  Reach.step _ (Reach.step _ (Reach.step _ (Reach.step _ (Reach.init _)
+    (by decide)) (by decide)) (by decide)) (by decide)
+
+/-- What the uniqueness buys (and what breaks without it): were the inbound connection given the id of the live
+outbound one (id 0 — not an id from the counter, so the contract forbids the event), closing it would release
+the outbound slot although the outbound connection is still open. -/
+example :
+    let g := runG (G.init ⟨some 2, some 1⟩)
+      [.dialAddress [.ip4 1, .tcp 1, .p2p 1], .evEstablished 1 ⟨false, [.ip4 1, .tcp 1, .p2p 1], 0⟩ true,
+       .evEstablished 2 ⟨true, [.ip4 2, .tcp 2], 0⟩ true, .evClosed 2 0]
+    g.m.limits.outgoing = [] ∧ stateOf g.m 1 = .connected ⟨[.ip4 1, .tcp 1, .p2p 1], 0⟩ none ∧
+    allowed (runG (G.init ⟨some 2, some 1⟩)
+      [.dialAddress [.ip4 1, .tcp 1, .p2p 1], .evEstablished 1 ⟨false, [.ip4 1, .tcp 1, .p2p 1], 0⟩ true])
+      (.evEstablished 2 ⟨true, [.ip4 2, .tcp 2], 0⟩ true) = false := by
+  decide
+
 #print axioms limits_inv
+#print axioms connection_ids_unique
 #print axioms counted_iff_open
 #print axioms released_once
 #print axioms two_per_peer
@@ -209,3 +267,37 @@ example : ∃ w, Node.new { sample with limits := none } = .ok w ∧ w.limits = 
 end Litep2pVerif.Props.C06.Wiring
 
 #print axioms Litep2pVerif.Props.C06.Wiring.configured_limits_installed
+
+/-! ## The other end of `released_once`: the manager IS told (coverage round `mgr2`)
+
+`released_once` / `counted_iff_open` say what the manager does when it is told that a connection closed. That it is
+told — exactly once per connection, whatever became of the installed protocols — is a fact about
+`ProtocolSet::report_connection_closed` and the connection task (`Model/Conn/{Close,Loop,Permits}.lean`, the model the
+real `TcpConnection::start` loop is driven against in the `tcploop` area; C06's check runs that area with protocols
+whose receivers are gone, judged by `tcploop.oracle_c06`). -/
+namespace Litep2pVerif.Props.C06.Release
+open Litep2pVerif Litep2pVerif.Conn
+
+/-- **A connection that ends releases its slot: the manager is told exactly once, dead protocols or not.** For every
+run of the connection task — every sequence of loop events, handle operations and shut-downs of the protocols (their
+receivers may be dropped at any time, so that telling them fails) and deliveries: the manager is never told twice,
+and once `start()` has returned the manager (its receiver exists as long as the node runs) has been told exactly
+once. With `released_once` the slot of the connection is then released, once. -/
+theorem slot_released_when_connection_ends (s0 : TLoop) (h0 : Fresh s0.loop.ps) (hc : s0.loop.cont = none)
+    (hx : s0.loop.exited = none) (ls : List TLabel) :
+    let s := (trun s0 ls).loop
+    mgrCnt s.ps ≤ 1 ∧ (s.exited.isSome → s.ps.mgr.alive = true → mgrCnt s.ps = 1) :=
+  ⟨(trun_pinv ls s0 (h0.pinv hc hx)).reports.2.1,
+    fun hex hm => ((trun_pinv ls s0 (h0.pinv hc hx)).reports.2.2 hex).2.2 hm⟩
+
+/-- Non-vacuity: protocol 1 shuts down (its receiver is dropped), then the connection loses its last permit holder
+and exits: telling protocol 1 fails, protocol 0 and the manager are told all the same, once. -/
+example :
+    let s := trun (tinit [true, true] 4) [.recv 0, .recv 1, .dropRx 1, .downgrade 0, .dropHandle 1, .idleExit]
+    Fresh (tinit [true, true] 4).loop.ps ∧ s.loop.exited.isSome ∧ s.loop.ps.mgr.alive = true ∧
+    mgrCnt s.loop.ps = 1 ∧ cnt s.loop.ps 0 .closed = 1 ∧ cnt s.loop.ps 1 .closed = 0 :=
+  ⟨tinit_fresh _ _, by decide⟩
+
+end Litep2pVerif.Props.C06.Release
+
+#print axioms Litep2pVerif.Props.C06.Release.slot_released_when_connection_ends
